@@ -118,14 +118,26 @@ func (k *c02KC) SnapshotsFor(name string) []kemtypes.ObjectAndFilterResult {
 		x.mutate()
 	}
 	mon, b := x.monitorOf(name)
+	var res []kemtypes.ObjectAndFilterResult
 	if mon != nil {
-		// let the informers of this binding catch up, so that the read is a quiet-cluster read
+		// let the informers of this binding catch up, so that the read is a quiet-cluster read.
+		// settle() may return at an instant where the snapshot looks right only because events are
+		// still on their way (create then delete): the read that counts is the delegated one, so it
+		// is repeated until it shows the quiet state itself (or the observation is the slow path's).
 		want := x.e.cl.wantSnap(b.spec)
-		if _, inc := x.e.cl.settle(mon, b.spec, want); inc {
-			x.inconcl = true
+		for attempt := 0; attempt < 200; attempt++ {
+			got, inc := x.e.cl.settle(mon, b.spec, want)
+			if inc {
+				x.inconcl = true
+			}
+			res = k.KubernetesBindingsController.SnapshotsFor(name)
+			if inc || got != want || c02RenderSnap(res, b.spec.flt > 0) == want {
+				break
+			}
 		}
+	} else {
+		res = k.KubernetesBindingsController.SnapshotsFor(name)
 	}
-	res := k.KubernetesBindingsController.SnapshotsFor(name)
 	id := x.names.Id(name)
 	if res == nil {
 		x.reads = append(x.reads, fmt.Sprintf("%d=nil", id))
@@ -471,6 +483,7 @@ func (x *c02Exec) takeEvents() []kemtypes.KubeEvent {
 }
 
 func c02ExecCase(c *Case, rng *Rng) {
+	rng = NewRng(rng.U64()) // the lib derives neighbouring cases from shifted copies of one stream
 	kem.DefaultSyncTime = time.Millisecond
 	e := &c02Env{c: c, cl: newC02Cluster(c.Idx)}
 	x := &c02Exec{e: e, rng: rng, names: NewInterner(), snapIDs: map[string]int{}}
